@@ -1,7 +1,7 @@
 """C05 — a Solution faithfully reports the evaluated problem (DESIGN §5 C05)."""
 from .common import *
 from .feas import (check_feasibility_rule, origins, PathEval, const_operand, error_propagates, absent_inserts, false_leads_to_error, enum_tests, result_kind, f64_of_operand, item_calls,
-                   dominates_ok, dominates_sem, must_pass_sem, loop_must2 as loop_must, mustcall2 as mustcall, returned_struct, truth_table, canon)
+                   dominates_ok, dominates_sem, must_pass_sem, loop_must2 as loop_must, mustcall2 as mustcall, returned_struct, truth_table, canon, field_is_none, value_sources)
 
 SOME0 = ('std::option::Option::Some', '0')
 INST = 'v1::Instance'; DV = 'v1::DecisionVariable'; CON = 'v1::Constraint'; RC = 'v1::RemovedConstraint'; EC = 'v1::EvaluatedConstraint'
@@ -454,13 +454,27 @@ def constraint_rules(ctx):
                 op = agg_field_operand(st, f)
                 fs, root, calls = T.access_path(b, op) if op else ([], None, [])
                 ctx.check(root == 1 and fs == [(CON, f)], R + '/Constraint::evaluate/carry/' + f, 'T-CARRY', b.name, 'EvaluatedConstraint.%s is not self.%s (path %s)' % (f, f, fs), b.site(bi))
-            ev = T.expr(b, agg_field_operand(st, 'evaluated_value'), depth=14) if agg_field_operand(st, 'evaluated_value') else ('local', -1)
-            okv = any(x[0] == 'call' and x[1] == 'evaluate' and 'v1::Function as evaluate::Evaluate' in x[2] and T.expr_has_call(x[3][0], 'function') and T.strip_wrappers(x[3][1]) == ('place', 2, []) for x in T.expr_walk(ev))
-            ctx.check(okv and [f for a, f in T.own_fields(ev) if a == 'tuple'][-1:] == ['0'], R + '/Constraint::evaluate/value', 'T-CARRY', b.name, 'evaluated_value is not `.0` of self.function().evaluate(state): %s' % T.expr_str(ev), b.site(bi))
+            # evaluated_value == `.0` of <Function>::evaluate(the constraint's function, state).  The function is `self.function()` (the
+            # accessor yields the zero function when the field is unset) or the field itself matched by hand, in which case the
+            # unset side supplies the zero function's value 0.0:   `match &self.function { Some(f) => f.evaluate(s)?, None => (0.0, ..) }`
+            vop = agg_field_operand(st, 'evaluated_value')
+            srcs = value_sources(b, vop) if vop is not None else []
+            evs = 0; vbad = []
+            none_side = set()
+            for sb, sm, nn in option_field_tests(b, CON, 'function'):
+                none_side |= b.reach([nn]) - b.reach([sm])
+            for kind, bb, obj, pending in srcs:
+                if kind == 'call' and obj.item == 'evaluate' and 'v1::Function as evaluate::Evaluate' in obj.name and pending == ['ok', ('t', 0)]:
+                    fe = T.expr(b, obj.args[0], depth=14)
+                    from_self = (T.expr_has_call(fe, 'function') or (CON, 'function') in T.expr_fields(fe)) and any(x[0] == 'place' and x[1] == 1 for x in T.expr_walk(fe))
+                    if from_self and T.access_path(b, obj.args[1])[1] == 2: evs += 1
+                    else: vbad.append('evaluate of something else than (self.function, state)')
+                elif kind == 'const' and f64_of_operand(b, {'k': 'const', 'v': obj}) == 0.0 and bb in none_side: pass
+                else: vbad.append('%s %s' % (kind, obj.name[:50] if kind == 'call' else str(obj)[:50]))
+            ctx.check(evs >= 1 and not vbad, R + '/Constraint::evaluate/value', 'T-CARRY', b.name, 'evaluated_value is not `.0` of self.function().evaluate(state): %s' % (vbad[:3] or 'no evaluation',), b.site(bi))
             uop = agg_field_operand(st, 'used_decision_variable_ids')
             ctx.check(uop is not None and slice_op(ctx, b, uop).has_call(r'v1::Function as evaluate::Evaluate>::evaluate'), R + '/Constraint::evaluate/used-ids', 'T-CARRY', b.name, 'used ids do not come from the function evaluation', b.site(bi))
-            rr = agg_field_operand(st, 'removed_reason')
-            ctx.check(rr is not None and T.expr(b, rr)[0] == 'agg' and T.expr(b, rr)[1].endswith('Option::None'), R + '/Constraint::evaluate/no-reason', 'T-CONST', b.name, 'active constraint gets a removal reason', b.site(bi))
+            ctx.check(field_is_none(ctx, b, sv, 'removed_reason'), R + '/Constraint::evaluate/no-reason', 'T-CONST', b.name, 'active constraint gets a removal reason', b.site(bi))
         fe = [c for c in b.calls if c.item == 'evaluate' and 'v1::Function as evaluate::Evaluate' in c.name]
         error_propagates(ctx, R + '/Constraint::evaluate/error-propagates', b, fe, 'function evaluation')
     b = ctx.method(R + '/RemovedConstraint::evaluate/anchor', RC, 'evaluate', trait='Evaluate')
@@ -488,7 +502,8 @@ def constraint_rules(ctx):
 
 
 # the reported objective / constraint values are produced by the evaluation kernels
-RELIES_ON = {'C01': ['C01.lookup', 'C01.fields', 'C01.every-term', 'C01.linear-none', 'C01.oneof']}
+# ... and the dependent values of the reported state by eval_dependencies (seed C05-7: a single pass in id order instead of the fixed point)
+RELIES_ON = {'C01': ['C01.lookup', 'C01.fields', 'C01.every-term', 'C01.linear-none', 'C01.oneof'], 'C04': ['C04.deps', 'C04.use']}
 
 
 def check(ctx):
